@@ -72,13 +72,13 @@ def run_case(c):
         t = T[c["ti"] % len(T)]
         tp = tproj(t)
         for p in range(c["lo"], c["hi"]):
-            for mf in (12, 24, 12):
+            for mf in (0, 1, 12, 24, 12):      # 0: open strings only
                 r = call("find_frets", {"p": p, "maxfret": mf}, lambda: [opt(x) for x in t.find_frets(Note().from_int(p), mf)])
                 r["tuning"] = tp
                 R.append(r)
         for s in range(-1, tp["strings"] + 1):
             for f in (-1, 0, 1, 11, 12, 13, 24, 25):
-                for mf in (12, 24, 12):      # the narrower limit again after the wider one has been answered
+                for mf in (0, 12, 24, 12):      # the narrower limit again after the wider one has been answered
                     r = call("get_Note", {"s": s, "f": f, "maxfret": mf}, lambda: integer(int(t.get_Note(s, f, mf))))
                     r["tuning"] = tp
                     R.append(r)
